@@ -245,17 +245,33 @@ def snell_path(rng, numinterfaces, tilt=True, max_inc_deg=70.0, modes=None, extr
         return None
     pts.append(target)
     normals.append(np.array([0.0, 0.0, 1.0]))
-    ifaces = []
+    # as the library's own `make_paths` does, the interfaces that lie on the same wall (first and third interior interface of
+    # a double-skip path) may share ONE Points / orientations object holding the crossing points of both passages
+    share = bool(extra_points and not contact and n == 5 and abs(tilts[1] - tilts[3]) == 0.0 and rng.random() < 0.5)
+    coords_of, want_idx = {}, {}
     for k in range(n):
         if 0 < k < n - 1 and extra_points:
             tdir = np.array([np.cos(tilts[k]), 0.0, -np.sin(tilts[k])])
             d1, d2 = rng.uniform(0.3e-3, 3e-3, size=2)
-            coords = np.stack([pts[k] - d1 * tdir, pts[k], pts[k] + d2 * tdir])
+            coords_of[k] = np.stack([pts[k] - d1 * tdir, pts[k], pts[k] + d2 * tdir])
+            want_idx[k] = 1
         else:
-            coords = pts[k][None, :]
+            coords_of[k] = pts[k][None, :]
+            want_idx[k] = 0
+    shared_obj = None
+    if share:
+        both = np.concatenate([coords_of[1], coords_of[3]])
+        frame13 = np.array([[np.cos(tilts[1]), 0.0, -np.sin(tilts[1])], [0.0, 1.0, 0.0], [np.sin(tilts[1]), 0.0, np.cos(tilts[1])]])
+        shared_obj = (g.Points(both, "I1=I3"), g.Points(np.broadcast_to(frame13, (len(both), 3, 3)).copy(), "O1=O3"))
+        want_idx[3] = 4
+    ifaces = []
+    for k in range(n):
+        coords = coords_of[k]
         P = g.Points(coords, f"I{k}")
         frame = np.array([[np.cos(tilts[k]), 0.0, -np.sin(tilts[k])], [0.0, 1.0, 0.0], [np.sin(tilts[k]), 0.0, np.cos(tilts[k])]])
         ori = g.Points(np.broadcast_to(frame, (len(coords), 3, 3)).copy(), f"O{k}")
+        if shared_obj is not None and k in (1, 3):
+            P, ori = shared_obj
         if n == 2:
             kind = [dict(are_normals_on_out_rays_side=True), dict(are_normals_on_inc_rays_side=True)][k]
         else:
@@ -272,10 +288,10 @@ def snell_path(rng, numinterfaces, tilt=True, max_inc_deg=70.0, modes=None, extr
     arim.ray.ray_tracing_for_paths([path])
     # the Fermat ray must go through the exact crossing points (middle samples)
     idx = path.rays.indices[:, 0, 0]
-    if extra_points and any(idx[k] != 1 for k in range(1, n - 1)):
+    if extra_points and any(idx[k] != want_idx[k] for k in range(1, n - 1)):
         return None
     legs = [float(np.linalg.norm(pts[k + 1] - pts[k])) for k in range(n - 1)]
-    info = dict(points=pts, thetas_in=thetas, legs=legs, vels=vels, modes=md, couplant=couplant, block=block, tilts=tilts)
+    info = dict(points=pts, thetas_in=thetas, legs=legs, vels=vels, modes=md, couplant=couplant, block=block, tilts=tilts, shared_wall=share)
     if contact and n > 2:
         info["reflect"] = [None] + [True] * (n - 2) + [None]
     return path, info
